@@ -236,6 +236,19 @@ def handleC11 (op : String) (args : Array Json) : Option Json := do
     let bn ← (← jArr? (arg args 2)).toList.mapM jStr?
     let name ← jStr? (arg args 3)
     some (bfieldJ (lookUpFieldByBindName fs bn name))
+  | "bind.batch" =>
+    -- ["bind.batch", fields, [[[bindNames] | null, name]…]] -> one answer per query (null bindNames = LookUpField)
+    let fs ← parseBFields (arg args 1)
+    let qs ← jArr? (arg args 2)
+    let outs ← qs.toList.mapM (fun q => do
+      let a ← jArr? q
+      let name ← jStr? (arg a 1)
+      match arg a 0 with
+      | Json.null => some (bfieldJ (lookUpField fs name))
+      | b =>
+        let bn ← (← jArr? b).toList.mapM jStr?
+        some (bfieldJ (lookUpFieldByBindName fs bn name)))
+    some (Json.arr outs.toArray)
   | "field.lookup" =>
     -- ["field.lookup", fields, name] -> bind path of schema.LookUpField(name) | null
     let fs ← parseBFields (arg args 1)
